@@ -187,7 +187,7 @@ pub fn c01(d: &[u8], m: &Movie, cfg: &Cfg, e: &Expect) -> Issues {
 /// C03: stts / ctts / mdhd against the submitted timestamps (exact, per absolute rounding).
 pub fn c03(m: &Movie, cfg: &Cfg, e: &Expect) -> Issues {
     let mut out = Issues::new();
-    let mut check = |t: Option<&Track>, exp: &[ExpSample], what: &str, out: &mut Issues| {
+    let check = |t: Option<&Track>, exp: &[ExpSample], what: &str, out: &mut Issues| {
         let Some(t) = t else { return };
         let Some(s) = track_samples(t, what, out) else { return };
         if s.len() != exp.len() {
